@@ -160,6 +160,7 @@ func (m *Manager) Put(key, value []byte) error {
 		if currentWAL == nil {
 			return ErrStorageClosed
 		}
+		verifhook.Point("mgr.put.wal_loaded")
 		seqNum, err := currentWAL.Append(wal.OpTypePut, key, value)
 		if err != nil {
 			if err != wal.ErrWALRotating {
@@ -259,6 +260,7 @@ func (m *Manager) Delete(key []byte) error {
 		if currentWAL == nil {
 			return ErrStorageClosed
 		}
+		verifhook.Point("mgr.delete.wal_loaded")
 		seqNum, err := currentWAL.Append(wal.OpTypeDelete, key, nil)
 		if err != nil {
 			if err != wal.ErrWALRotating {
@@ -379,6 +381,7 @@ func (m *Manager) ApplyBatch(entries []*wal.Entry) error {
 		if currentWAL == nil {
 			return ErrStorageClosed
 		}
+		verifhook.Point("mgr.batch.wal_loaded")
 		startSeqNum, err := currentWAL.AppendBatch(entries)
 		if err != nil {
 			if err != wal.ErrWALRotating {
